@@ -379,6 +379,7 @@ static void do_scan(void) {
   } else { ob_puts(&out, "],\"err\":\"via\"}"); free(buf); free(md); return; }
   ob_puts(&out, "],\"rc\":"); ob_int(&out, rc);
   ob_puts(&out, ",\"polls\":"); ob_int(&out, yv_clock_polls);
+  ob_puts(&out, ",\"clk\":"); ob_int(&out, yv_clock_last_id);
   if (sc) { YR_RULE* er = yr_scanner_last_error_rule(sc); YR_STRING* es = yr_scanner_last_error_string(sc);
     if (er) { ob_puts(&out, ",\"errule\":"); ob_jstr(&out, er->identifier, -1); }
     if (es) { ob_puts(&out, ",\"erstr\":"); ob_jstr(&out, es->identifier, -1); } }
